@@ -22,6 +22,21 @@ impl FirstSetMapBuilder<'_> {
 
         loop {
             let DidChange(changed) = self.expand(&mut out);
+            #[cfg(feature = "verif")]
+            crate::verif::record(|| {
+                let mut sets: Vec<(String, Vec<String>, bool)> = out
+                    .iter()
+                    .map(|(name, first)| {
+                        (
+                            name.clone(),
+                            first.terminals.iter().map(|t| t.raw().to_owned()).collect(),
+                            first.contains_epsilon,
+                        )
+                    })
+                    .collect();
+                sets.sort();
+                crate::verif::Event::FirstPass { changed, sets }
+            });
             if !changed {
                 #[cfg(feature = "verif")]
                 crate::verif::record(|| {
